@@ -84,10 +84,13 @@ package dag
 //@   ensures [C19 substitution_only_spawns] eff.exec >= old(eff.exec)
 //@   loop 0 invariant 0 <= i && eff.exec >= old(eff.exec)
 
+// What the tokenizer returned last (the regular expression itself is outside the model: see the bounded stand-in).
+//@ ghost obs.parsed []paramPair
 //@ fn parseParamValue(input, executeCommandSubstitution) (params, err)
 //@   props C13 C19 C11
 //@   safety
-//@   modifies heap(alloc), ghost eff.exec
+//@   modifies heap(alloc), ghost eff.exec, ghost obs.parsed
+//@   records obs.parsed = params
 //@   ensures [C19 params_run_commands_only_when_asked] !executeCommandSubstitution ==> eff.exec == old(eff.exec)
 //@   loop 0 invariant !executeCommandSubstitution ==> eff.exec == old(eff.exec)
 
@@ -95,12 +98,25 @@ package dag
 //@   props C11 C13
 //@   ensures [C11 named_param_is_name_equals_value] r == ite(param.name != "", param.name + "=" + param.value, param.value)
 
+// parseParams: one entry per parsed parameter, in order, written NAME=value (or just the value); parameter i is
+// exported as $i with exactly that text (a positional parameter: its value) and a named one also as $NAME.
 //@ fn parseParams(value, eval, options) (params, envs, err)
 //@   props C13 C19 C11
 //@   safety
-//@   modifies heap(alloc), ghost eff.exec, ghost eff.env, ghost env.key, ghost env.val
+//@   modifies heap(alloc), ghost eff.exec, ghost eff.env, ghost env.key, ghost env.val, ghost obs.parsed
 //@   ensures [C19 no_eval_no_effect] !eval && options.noEval ==> (eff.exec == old(eff.exec) && eff.env == old(eff.env))
+//@   ensures [C11 one_entry_per_parameter_in_order] err == nil ==> len(params) == len(obs.parsed)
+//@   ensures [C11 entry_is_the_value_or_name_equals_value] err == nil && !eval ==> (forall k int :: 0 <= k && k < len(params) ==>
+//@        params[k] == ite(obs.parsed[k].name != "", obs.parsed[k].name + "=" + obs.parsed[k].value, obs.parsed[k].value))
+//@   ensures [C11 nothing_is_exported_without_evaluation] options.noEval ==> eff.env == old(eff.env)
+//@   assert before os.Setenv#0 [C11 parameter_i_is_exported_as_dollar_i] !options.noEval && arg0 == itoa(i + 1) &&
+//@        arg1 == ite(p.name == "", p.value, p.name + "=" + p.value)
+//@   assert before os.Setenv#1 [C11 named_parameter_is_exported_under_its_name] !options.noEval && p.name != "" && arg0 == p.name && arg1 == p.value
 //@   loop 0 invariant !eval && options.noEval ==> (eff.exec == old(eff.exec) && eff.env == old(eff.env))
+//@   loop 0 invariant options.noEval ==> eff.env == old(eff.env)
+//@   loop 0 invariant len(ret) == idx + 1 && obs.parsed == parsedParams
+//@   loop 0 invariant !eval ==> (forall k int :: 0 <= k && k <= idx ==>
+//@        ret[k] == ite(parsedParams[k].name != "", parsedParams[k].name + "=" + parsedParams[k].value, parsedParams[k].value))
 
 //@ fn parseKeyValue(m, pairs) (err)
 //@   props C13 C19
@@ -279,11 +295,13 @@ package dag
 //@   requires b.def != nil && b.dag != nil
 //@   modifies b.dag.MailOn, heap(alloc)
 //@ fn (*builder).buildParams(b) (err)
-//@   props C13 C19
+//@   props C11 C13 C19
 //@   safety
 //@   requires b.def != nil && b.dag != nil
-//@   modifies b.dag.DefaultParams, b.dag.Params, b.dag.Env, heap(alloc), ghost eff.exec, ghost eff.env, ghost env.key, ghost env.val
+//@   modifies b.dag.DefaultParams, b.dag.Params, b.dag.Env, heap(alloc), ghost eff.exec, ghost eff.env, ghost env.key, ghost env.val, ghost obs.parsed
 //@   ensures [C19 no_eval_no_effect] b.opts.noEval ==> (eff.exec == old(eff.exec) && eff.env == old(eff.env))
+//@   assert before parseParams [C11 given_parameters_replace_the_defaults] arg0 == ite(b.opts.parameters != "", b.opts.parameters, b.def.Params) &&
+//@        arg1 == !b.opts.noEval && arg2 == b.opts
 //@ fn (*builder).buildSteps(b) (err)
 //@   props C13 C19
 //@   safety
@@ -349,7 +367,7 @@ package dag
 //@ fn (*builder).build(b, def, envs) (d, err)
 //@   props C13 C19
 //@   safety
-//@   modifies b, def.HandlerOn.Exit.Name, def.HandlerOn.Success.Name, def.HandlerOn.Failure.Name, def.HandlerOn.Cancel.Name, heap(alloc), heap(map(string, any)), heap(elems(any)), ghost eff.exec, ghost eff.env, ghost env.key, ghost env.val
+//@   modifies b, def.HandlerOn.Exit.Name, def.HandlerOn.Success.Name, def.HandlerOn.Failure.Name, def.HandlerOn.Cancel.Name, heap(alloc), heap(map(string, any)), heap(elems(any)), ghost eff.exec, ghost eff.env, ghost env.key, ghost env.val, ghost obs.parsed
 //@   ensures [C19 no_eval_no_effect] old(b.opts.noEval) ==> (eff.exec == old(eff.exec) && eff.env == old(eff.env))
 //@   ensures [C13 error_or_dag] (err == nil) <==> (d != nil)
 //@   ensures err == nil ==> (!wasAllocated(d) && (d.Steps == nil || !wasAllocated(d.Steps)) && handlers_fresh(d))
@@ -374,7 +392,7 @@ package dag
 //@ fn loadYAML(data, opts) (d, err)
 //@   props C13 C19
 //@   safety
-//@   modifies heap(alloc), heap(map(string, any)), heap(elems(any)), ghost eff.exec, ghost eff.env, ghost env.key, ghost env.val, ghost obs.exists_calls, ghost obs.exists, ghost obs.exists_path, ghost obs.stat_err, ghost obs.stat_path
+//@   modifies heap(alloc), heap(map(string, any)), heap(elems(any)), ghost eff.exec, ghost eff.env, ghost env.key, ghost env.val, ghost obs.parsed, ghost obs.exists_calls, ghost obs.exists, ghost obs.exists_path, ghost obs.stat_err, ghost obs.stat_path
 //@   ensures [C19 no_eval_no_effect] opts.noEval ==> (eff.exec == old(eff.exec) && eff.env == old(eff.env))
 //@   ensures [C13 error_or_dag] err == nil ==> d != nil
 //@   ensures [C13 accepted_definition_is_runnable] err == nil && !opts.metadataOnly ==> dag_runnable(d)
@@ -384,7 +402,7 @@ package dag
 //@   props C13 C19 C18
 //@   safety
 //@   records obs.validate_err = err
-//@   modifies heap(alloc), heap(map(string, any)), heap(elems(any)), ghost eff.exec, ghost eff.env, ghost env.key, ghost env.val, ghost obs.exists_calls, ghost obs.exists, ghost obs.exists_path, ghost obs.stat_err, ghost obs.stat_path
+//@   modifies heap(alloc), heap(map(string, any)), heap(elems(any)), ghost eff.exec, ghost eff.env, ghost env.key, ghost env.val, ghost obs.parsed, ghost obs.exists_calls, ghost obs.exists, ghost obs.exists_path, ghost obs.stat_err, ghost obs.stat_path
 //@   ensures [C19 validating_has_no_side_effects] eff.exec == old(eff.exec) && eff.env == old(eff.env)
 //@   ensures [C13 error_or_runnable_dag] err == nil ==> (d != nil && dag_runnable(d))
 
@@ -392,12 +410,12 @@ package dag
 //@   props C13 C19
 //@   safety
 //@   ensures err == nil && d != nil ==> (!wasAllocated(d) && (d.Steps == nil || !wasAllocated(d.Steps)) && handlers_fresh(d))
-//@   modifies heap(alloc), heap(map(string, any)), heap(elems(any)), ghost eff.exec, ghost eff.env, ghost env.key, ghost env.val, ghost obs.exists_calls, ghost obs.exists, ghost obs.exists_path, ghost obs.stat_err, ghost obs.stat_path
+//@   modifies heap(alloc), heap(map(string, any)), heap(elems(any)), ghost eff.exec, ghost eff.env, ghost env.key, ghost env.val, ghost obs.parsed, ghost obs.exists_calls, ghost obs.exists, ghost obs.exists_path, ghost obs.stat_err, ghost obs.stat_path
 //@   ensures [C19 no_eval_no_effect] opts.noEval ==> (eff.exec == old(eff.exec) && eff.env == old(eff.env))
 //@ fn loadBaseConfigIfRequired(baseConfig, opts) (d, err)
 //@   props C13 C19
 //@   safety
-//@   modifies heap(alloc), heap(map(string, any)), heap(elems(any)), ghost eff.exec, ghost eff.env, ghost env.key, ghost env.val, ghost obs.exists_calls, ghost obs.exists, ghost obs.exists_path, ghost obs.stat_err, ghost obs.stat_path
+//@   modifies heap(alloc), heap(map(string, any)), heap(elems(any)), ghost eff.exec, ghost eff.env, ghost env.key, ghost env.val, ghost obs.parsed, ghost obs.exists_calls, ghost obs.exists, ghost obs.exists_path, ghost obs.stat_err, ghost obs.stat_path
 //@   ensures [C19 no_eval_no_effect] opts.noEval ==> (eff.exec == old(eff.exec) && eff.env == old(eff.env))
 //@   ensures err == nil ==> (d != nil && !wasAllocated(d) && (d.Steps == nil || !wasAllocated(d.Steps)) && handlers_fresh(d))
 
@@ -416,7 +434,7 @@ package dag
 //@ fn loadDAG(dag, opts) (d, err)
 //@   props C13 C19
 //@   safety
-//@   modifies heap(alloc), heap(map(string, any)), heap(elems(any)), ghost eff.exec, ghost eff.env, ghost env.key, ghost env.val, ghost obs.exists_calls, ghost obs.exists, ghost obs.exists_path, ghost obs.stat_err, ghost obs.stat_path
+//@   modifies heap(alloc), heap(map(string, any)), heap(elems(any)), ghost eff.exec, ghost eff.env, ghost env.key, ghost env.val, ghost obs.parsed, ghost obs.exists_calls, ghost obs.exists, ghost obs.exists_path, ghost obs.stat_err, ghost obs.stat_path
 //@   ensures [C19 no_eval_no_effect] opts.noEval ==> (eff.exec == old(eff.exec) && eff.env == old(eff.env))
 //@   ensures [C13 error_or_dag] err == nil ==> d != nil
 
@@ -424,21 +442,21 @@ package dag
 //@ fn Load(base, dag, params) (d, err)
 //@   props C10 C11 C13
 //@   safety
-//@   modifies heap(alloc), heap(map(string, any)), heap(elems(any)), ghost eff.exec, ghost eff.env, ghost env.key, ghost env.val, ghost obs.exists_calls, ghost obs.exists, ghost obs.exists_path, ghost obs.stat_err, ghost obs.stat_path
+//@   modifies heap(alloc), heap(map(string, any)), heap(elems(any)), ghost eff.exec, ghost eff.env, ghost env.key, ghost env.val, ghost obs.parsed, ghost obs.exists_calls, ghost obs.exists, ghost obs.exists_path, ghost obs.stat_err, ghost obs.stat_path
 //@   ensures [C13 error_or_dag] err == nil ==> d != nil
 //@   assert before loadDAG [C11 given_parameters_reach_the_builder] arg0 == dag && arg1.parameters == params && arg1.base == base && !arg1.noEval && !arg1.metadataOnly
 
 //@ fn LoadWithoutEval(dag) (d, err)
 //@   props C13 C19
 //@   safety
-//@   modifies heap(alloc), heap(map(string, any)), heap(elems(any)), ghost eff.exec, ghost eff.env, ghost env.key, ghost env.val, ghost obs.exists_calls, ghost obs.exists, ghost obs.exists_path, ghost obs.stat_err, ghost obs.stat_path
+//@   modifies heap(alloc), heap(map(string, any)), heap(elems(any)), ghost eff.exec, ghost eff.env, ghost env.key, ghost env.val, ghost obs.parsed, ghost obs.exists_calls, ghost obs.exists, ghost obs.exists_path, ghost obs.stat_err, ghost obs.stat_path
 //@   ensures [C19 viewing_has_no_side_effects] eff.exec == old(eff.exec) && eff.env == old(eff.env)
 //@   ensures err == nil ==> d != nil
 
 //@ fn LoadMetadata(dag) (d, err)
 //@   props C09 C13 C19
 //@   safety
-//@   modifies heap(alloc), heap(map(string, any)), heap(elems(any)), ghost eff.exec, ghost eff.env, ghost env.key, ghost env.val, ghost obs.exists_calls, ghost obs.exists, ghost obs.exists_path, ghost obs.stat_err, ghost obs.stat_path
+//@   modifies heap(alloc), heap(map(string, any)), heap(elems(any)), ghost eff.exec, ghost eff.env, ghost env.key, ghost env.val, ghost obs.parsed, ghost obs.exists_calls, ghost obs.exists, ghost obs.exists_path, ghost obs.stat_err, ghost obs.stat_path
 //@   records obs.meta_calls = old(obs.meta_calls) + 1
 //@   records obs.meta_err = err
 //@   records obs.meta_dag = d
